@@ -721,7 +721,8 @@ class Registry:
                 except Exception as e:
                     self.missing.append((q, 'locals=: cannot locate the source (%s)' % e))
         self.loops_by_code = {}
-        for (q, ordinal), ls in self.loops.items():
+        for key, ls in self.loops.items():
+            q, ordinal = key[0], key[1]
             try:
                 obj, owner = frontend.resolve_qualified(q)
             except LookupError as e:
@@ -1076,6 +1077,7 @@ class Module:
 
     def loop(self, qname, ordinal, **kw):
         ls = LoopSpec(qname, ordinal, **kw)
+        ls.module = self           # several sidecar modules may annotate the same loop (each for its own contract)
         self.loops.append(ls)
         return ls
 
